@@ -314,7 +314,7 @@ def add_connection(u):
                'r.last_ack_or_rtt_sample_ms == 0', 'r.stall_latched_since_ms == 0', '!r.silence_pulled', '!r.stall_gated',
                'r.batch_sender.queue.len() == 0',
            ]))
-    F(u.fn(CONN, 'get_score', impl='SrtlaConnection', sub='select', ret='r', requires=['0 <= self.window', 'self.batch_sender.wf()'], ensures=[
+    F(u.fn(CONN, 'get_score', impl='SrtlaConnection', sub='select', props=('C03',), ret='r', requires=['0 <= self.window', 'self.batch_sender.wf()'], ensures=[
         C('C10.select.get_score.window_over_inflight_plus_queued_plus_1', 'r == self.spec_score()')]))
     F(u.fn(CONN, 'queue_data_packet', impl='SrtlaConnection', sub='batch', ret='r',
            requires=['old(self).batch_sender.wf()', 'old(self).batch_sender.queue.len() < 0x7fff_fff0'],
@@ -333,7 +333,7 @@ def add_connection(u):
     F(u.fn(CONN, 'take_batch', impl='SrtlaConnection', sub='batch', ret='r',
            requires=['old(self).wf_count()', 'old(self).batch_sender.wf()', 'old(self).packet_log@.len() + old(self).batch_sender.queue.len() < 0x7fff_0000'],
            ensures=[
-               C('C02.batch.take_batch.count_equals_set', 'final(self).wf_count()'), 'final(self).batch_sender.wf()',
+               C('C02+C05.batch.take_batch.count_equals_set', 'final(self).wf_count()'), 'final(self).batch_sender.wf()',
                C('C02.batch.take_batch.keeps_log_above_high_water', 'old(self).above_hw() ==> final(self).above_hw()'),
                C('C01.batch.take_batch.returns_queue_in_order', '''r.len() == old(self).batch_sender.queue.len()
             && (forall|i: int| 0 <= i < r.len() ==> (#[trigger] r[i]).0@ == old(self).batch_sender.queue[i]@ && r[i].1 == old(self).batch_sender.sequences[i] && r[i].2 == old(self).batch_sender.queue_times[i])'''),
@@ -403,20 +403,20 @@ def add_connection(u):
            requires=['old(self).phase is Warming ==> old(self).phase->rtt_probes < 0xffff_ffff'],
            ensures=['final(self).same_except_phase(old(self))', 'old(self).phase is Registering ==> final(self).phase is Registering',
                     'final(self).phase is Warming ==> final(self).phase->rtt_probes < WARMING_RTT_PROBES', '!(old(self).phase is Warming) ==> final(self).phase == old(self).phase']))
-    F(u.fn(CONN, 'is_schedulable', impl='SrtlaConnection', sub='select', ret='r', ensures=[C('C03+C04.select.conn.schedulable_iff_registered', 'r == self.spec_sched()')]))
+    F(u.fn(CONN, 'is_schedulable', impl='SrtlaConnection', sub='select', props=('C03',), ret='r', ensures=[C('C03+C04.select.conn.schedulable_iff_registered', 'r == self.spec_sched()')]))
     F(u.fn(CONN, 'phase_weight', impl='SrtlaConnection', sub='select', ret='r', ensures=[C('C11.select.conn.phase_weight_delegates', 'r == spec_phase_weight(self.phase)')]))
     for nm in ('effective_stall_stale_ms', 'silence_pull_window_ms'):
         pass
-    F(u.fn(CONN, 'effective_stall_stale_ms', impl='SrtlaConnection', sub='select', ret='r',
+    F(u.fn(CONN, 'effective_stall_stale_ms', impl='SrtlaConnection', sub='select', props=('C03',), ret='r',
            post_rewrite=[('(srtt as u64)', 'f64_to_u64(srtt)', 1)],
            ensures=[C('C13.select.effective_stall_stale_ms.formula', 'r == self.spec_eff_stale(ceiling_ms)')]))
-    F(u.fn(CONN, 'is_stalled', impl='SrtlaConnection', sub='select', ret='r', ensures=[
+    F(u.fn(CONN, 'is_stalled', impl='SrtlaConnection', sub='select', props=('C03',), ret='r', ensures=[
         C('C13.select.is_stalled.needs_backlog_and_stale_proof', 'r == self.spec_stalled(now_ms, min_in_flight, stale_ceiling_ms)')]))
-    F(u.fn(CONN, 'update_stall_latch', impl='SrtlaConnection', sub='select',
+    F(u.fn(CONN, 'update_stall_latch', impl='SrtlaConnection', sub='select', props=('C03',),
            post_rewrite=[],
            requires=['old(self).stall_gate_events < 0x7fff_ffff_ffff_ffff', 'now_ms > 0', 'old(self).latch_wf()'],
            ensures=S.LATCH_ENSURES))
-    F(u.fn(CONN, 'stall_latched', impl='SrtlaConnection', sub='select', ret='r', ensures=[C('C04+C12.select.conn.stall_latched_reads_the_latch', 'r == self.spec_latched()')]))
+    F(u.fn(CONN, 'stall_latched', impl='SrtlaConnection', sub='select', props=('C03',), ret='r', ensures=[C('C04+C12.select.conn.stall_latched_reads_the_latch', 'r == self.spec_latched()')]))
     F(u.fn(CONN, 'clear_stall_latch', impl='SrtlaConnection', sub='select', ensures=[
         C('C12.select.clear_stall_latch.clears_only_the_latch', '*final(self) == (SrtlaConnection { stall_latched_since_ms: 0, stall_recovery_since_ms: 0, ..*old(self) })')]))
     F(u.fn(CONN, 'is_stall_gated', impl='SrtlaConnection', sub='select', ret='r', ensures=[C('C01+C04.select.conn.is_stall_gated_reads_the_gate_flag', 'r == self.stall_gated')]))
@@ -429,16 +429,16 @@ def add_connection(u):
                'final(self).stall_probe_counter < 100',
                C('C01+C12.batch.stall_probe_due.frame', '*final(self) == (SrtlaConnection { stall_probe_counter: final(self).stall_probe_counter, ..*old(self) })'),
            ]))
-    F(u.fn(CONN, 'silence_pull_window_ms', impl='SrtlaConnection', sub='select', ret='r',
+    F(u.fn(CONN, 'silence_pull_window_ms', impl='SrtlaConnection', sub='select', props=('C03',), ret='r',
            post_rewrite=[('(srtt as u64)', 'f64_to_u64(srtt)', 1)],
            ensures=[C('C13.select.silence_pull_window_ms.formula', 'r == self.spec_pull_window(stale_ceiling_ms)'),
                     C('C13.select.silence_pull_window_ms.capped_by_stale_window', 'r <= self.spec_eff_stale(stale_ceiling_ms)')]))
-    F(u.fn(CONN, 'is_briefly_silent', impl='SrtlaConnection', sub='select', ret='r', ensures=[
+    F(u.fn(CONN, 'is_briefly_silent', impl='SrtlaConnection', sub='select', props=('C03',), ret='r', ensures=[
         C('C13.select.is_briefly_silent.formula', 'r == self.spec_briefly_silent(now_ms, min_in_flight, stale_ceiling_ms)')]))
-    F(u.fn(CONN, 'update_silence_pull', impl='SrtlaConnection', sub='select',
+    F(u.fn(CONN, 'update_silence_pull', impl='SrtlaConnection', sub='select', props=('C03',),
            requires=['old(self).silence_pulls < 0x7fff_ffff_ffff_ffff'], ensures=S.PULL_ENSURES))
-    F(u.fn(CONN, 'is_timed_out', impl='SrtlaConnection', sub='select', ret='r', ensures=[
-        C('C08.select.is_timed_out.only_silence_and_timeout', 'r == self.spec_timed_out(now_ms)')]))
+    F(u.fn(CONN, 'is_timed_out', impl='SrtlaConnection', sub='select', props=('C03',), ret='r', ensures=[
+        C('C03+C04+C08.select.is_timed_out.only_silence_and_the_configured_timeout', 'r == self.spec_timed_out(now_ms)')]))
     F(u.fn(CONN, 'clear_pre_registration_state', impl='SrtlaConnection', sub='acct',
            post_rewrite=[('CachedQuality::default()', 'cached_quality_default()', 1)],
            ensures=[
@@ -457,9 +457,10 @@ def add_connection(u):
         C('C08+C14.acct.mark_for_recovery.cancels_the_outstanding_rtt_probe_and_keepalive_stamps',
           '!final(self).rtt.waiting_for_keepalive_response && final(self).rtt.last_keepalive_sent_ms == 0 && final(self).last_keepalive_sent is None'),
         'final(self).last_received is None', 'final(self).reconnection.startup_grace_deadline_ms == 0',
-        'final(self).reconnection.last_reconnect_attempt_ms == old(self).reconnection.last_reconnect_attempt_ms',
-        'final(self).reconnection.reconnect_failure_count == old(self).reconnection.reconnect_failure_count',
-        'final(self).reconnection.connection_established_ms == old(self).reconnection.connection_established_ms',
+        C('C08.acct.mark_for_recovery.keeps_the_retry_clock_the_backoff_and_the_establishment_stamp',
+          '''final(self).reconnection.last_reconnect_attempt_ms == old(self).reconnection.last_reconnect_attempt_ms
+            && final(self).reconnection.reconnect_failure_count == old(self).reconnection.reconnect_failure_count
+            && final(self).reconnection.connection_established_ms == old(self).reconnection.connection_established_ms'''),
         'final(self).conn_id == old(self).conn_id',
     ]))
     F(u.fn(CONN, 'time_since_last_nak_ms', impl='SrtlaConnection', sub='select', ret='r'))
@@ -504,7 +505,7 @@ def add_connection(u):
            requires=['old(self).wf_count()', 'old(self).packet_log@.len() < 0x7fff_fff0'],
            ensures=[
                C('C02.acct.register_packet.adds_exactly_seq', 'final(self).packet_log@ == old(self).packet_log@.insert(seq, send_time_ms)'),
-               C('C02.acct.register_packet.count_equals_set', 'final(self).wf_count()'),
+               C('C02+C05.acct.register_packet.count_equals_set', 'final(self).wf_count()'),
                C('C02.acct.register_packet.keeps_log_above_high_water', 'old(self).above_hw() ==> final(self).above_hw()'),
                C('C02.acct.register_packet.frame', 'final(self).same_except_log_hw(old(self))'),
            ]))
@@ -537,7 +538,7 @@ def add_connection(u):
 def add_selection(u):
     Q = K + 'selection/quality.rs'
     u.add(S.QUALITY_STUB)
-    u.add(mod_block('classic', u.fn(K + 'selection/classic.rs', 'select_connection', sub='select', ret='r', qual='classic::select_connection',
+    u.add(mod_block('classic', u.fn(K + 'selection/classic.rs', 'select_connection', sub='select', props=('C03',), ret='r', qual='classic::select_connection',
                                     requires=[S.WF_SEL('conns')], ensures=S.CLASSIC_ENSURES, loops={0: dict(inv=S.CLASSIC_INV, dec='conns.len() - i_nx')})))
     E = K + 'selection/enhanced.rs'
     ebody = [u.consts(E, names=['IN_FLIGHT_CAP_BDP_MULT', 'SWITCH_THRESHOLD', 'CC_SOFT_CAP_FLOOR', 'GATED_LINK_PENALTY']),
@@ -548,7 +549,7 @@ def add_selection(u):
                                 '(match in_flight_cap_packets(c.cc_target_bps, c.get_rtt_min_ms()) { Some(cap) => c.in_flight_packets > cap, None => false })', 1)],
                   ensures=[C('C03+C11.select.enhanced.in_flight_cap_exceeded_matches_spec', 'r == spec_cap_exceeded(c)')]),
              S.ANY_UNCONSTRAINED_HELPER(u),
-             u.fn(E, 'select_connection', sub='select', ret='r', qual='enhanced::select_connection',
+             u.fn(E, 'select_connection', sub='select', ret='r', qual='enhanced::select_connection', props=('C03',),
                   pre_rewrite=[(re.compile(r'let any_unconstrained = conns\.iter\(\)\.any\(\|c\| \{.*?\}\);', re.S),
                                 'let any_unconstrained = any_unconstrained_helper(conns, current_time_ms);', 1),
                                ('c.get_score() as f64', 'cast_i32_f64(c.get_score())', 1)],
@@ -558,7 +559,7 @@ def add_selection(u):
     u.add(mod_block('enhanced', '\n'.join(ebody), uses='use super::*; broadcast use super::fax::group_f64_total;'))
     u.add(S.GATE_PREDS)
     u.add(S.GATE_HELPER(u))
-    u.add(u.fn(K + 'selection/mod.rs', 'apply_stall_gate', sub='select',
+    u.add(u.fn(K + 'selection/mod.rs', 'apply_stall_gate', sub='select', props=('C03',),
                pre_rewrite=[(re.compile(r'let any_healthy = conns\.iter\(\)\.any\(\|c\| \{.*?\}\);', re.S),
                              'let any_healthy = any_healthy_helper(conns, current_time_ms);', 1)],
                # loop_isolation(false): what is known before a loop about values the loop does not change (old(conns), the entry
@@ -568,7 +569,7 @@ def add_selection(u):
                requires=S.GATE_REQUIRES, ensures=S.GATE_ENSURES,
                loops={k: dict(inv=inv, dec='conns.len() - c_nx') for k, inv in S.GATE_LOOPS.items()},
                splices=S.GATE_SPLICES))
-    u.add(u.fn(K + 'selection/mod.rs', 'select_connection_idx', sub='select', ret='r',
+    u.add(u.fn(K + 'selection/mod.rs', 'select_connection_idx', sub='select', ret='r', props=('C03',),
                requires=S.IDX_REQUIRES, ensures=S.IDX_ENSURES, splices=S.IDX_SPLICES))
     u.add(u.fn(K + 'priority.rs', 'select_best_quality_idx', sub='select', ret='r',
                post_rewrite=[('let mut best_idx = None;', 'let mut best_idx: Option<usize> = None;', 1)],
